@@ -639,7 +639,7 @@ def run(tier):
         # independent re-check of the compiled closure of the property files by coqchk
         for pf in ('Properties_C12', 'Properties_C12d'):
             rc, so, se = sh(['coqchk', '-silent', '-o', '-Q', 'theories', 'Quill', '-Q', 'gen', 'QuillGen', 'Quill.Props.' + pf], cwd=COQ, timeout=1200)
-            ok = rc == 0 and 'Axioms: <none>' in so
+            ok = rc == 0 and '* Axioms: <none>' in (so + str(se))      # coqchk prints its context summary on stderr
             ck.tie.append({'name': 'coqchk -o Quill.Props.' + pf, 'ok': ok})
             if not ok: broken.append('coqchk -o on %s failed: ' % pf + (so + str(se))[-300:])
     mexe, iexe = build(ck)
@@ -648,7 +648,7 @@ def run(tier):
     objs = (gen_direct(rng, 3000 if q else 40000) + gen_malformed(rng, 800 if q else 10000)
             + gen_e2e(rng, 300 if q else 4000, 6 if q else 9) + gen_fmt(rng, 1000 if q else 15000)
             + gen_state(rng, 600 if q else 8000))
-    dobjs = D.gen(rng, 1500 if q else 30000, hoist)
+    dobjs = D.gen(rng, 1500 if q else 20000, hoist)
     tm = orc.times([o['st']['ts'] for o in objs if o['mode'] == 0])
     for o in objs:
         if o['mode'] == 0: o['st']['time'] = tm[o['st']['ts']]
@@ -688,6 +688,11 @@ def run(tier):
             if k and k not in ck.known: ck.known.append(k)
             elif not k and not ck.violations:
                 ck.violation('impl-failing-input', 'property monitor (strict) on a corpus case: ' + mf, case=c, expected='property clause holds', observed=i[:2000])
+    if hoist == 1 and not ck.violations:
+        # T-src says log_to_write is not re-initialised per sink and no generated case showed it: the model witness
+        ck.violation('model-witness', 'SrcFacts.be_log_to_write_reinit_per_sink = false: a sink without override behind a sink with override pattern is handed the override line (theorem C12d_hoisted_refuted); broken: ' + '; '.join(broken)[:300],
+                     case=with_hoist(D.corpus_cases(orc, 1)[0], 1), expected='the plain sink is handed the line of the logger\'s pattern',
+                     observed='model variant hoist=1: the plain sink is handed the override line')
     if broken and not ck.violations:
         ck.violation('no-failing-input-found', '; '.join(broken))
     # what the code does on the inputs the property excludes (documented, not judged)
